@@ -4,6 +4,9 @@ CFG = {
     "lean_exe": "lm_c04",
     "hooks": True,
     "theorems": [
+        "Leptos.RView.C04_settles_full",
+        "Leptos.RView.C04_settles_memo",
+        "Leptos.RView.C04_settles_show",
         "Leptos.RView.C04_settles",
         "Leptos.RView.C04_settles_leaves",
         "Leptos.RView.C04_settles_for",
@@ -42,6 +45,31 @@ CFG = {
         "Leptos.RView.show_poll_same",
         "Leptos.RView.memo_recompute",
         "Leptos.RView.step_disposed",
+        # the stack behind C04_settles_full (signals and memos, Show): reactive core's TopC + state tree
+        "Leptos.RView.InvDM.run",
+        "Leptos.RView.InvCM.settled",
+        "Leptos.RView.InvCM.poll",
+        "Leptos.RView.pollAliveM",
+        "Leptos.RView.loopM",
+        "Leptos.RView.iterM",
+        "Leptos.RView.InvCM.run",
+        "Leptos.RView.InvCM.dead",
+        "Leptos.RView.InvCM.of_rerun",
+        "Leptos.RView.InvCM.of_zrerun",
+        "Leptos.RView.rerunIn_specM",
+        "Leptos.RView.rerunZombies_specM",
+        "Leptos.RView.rebuild_specM",
+        "Leptos.RView.replace_specM",
+        "Leptos.RView.build_specM",
+        "Leptos.RView.newEffM_spec'",
+        "Leptos.RView.dropAllM",
+        "Leptos.RView.setSigM",
+        "Leptos.RView.GoodM.serialize_eq",
+        "Leptos.RView.EM.cur_idle",
+        "Leptos.RView.upd_sk",
+        "Leptos.RView.runEffBody_sk",
+        "Leptos.Reactive.TopC.consumeG",
+        "Leptos.Reactive.TopC.flagIdle",
     ],
     "harness_pkg": "hx-c04",
     "harness_bin": "c04",
@@ -86,13 +114,12 @@ CFG = {
         "has one reader among effect expressions and Show conditions; a `setl` stands between two `idle`; lists sit in the region of the mounted view only and such a view is not "
         "disposed mid-history (leptos For captures `Owner::current()`, which keeps that owner alive until the list's task has ended). Outside this class the real code can PANIC "
         "(F-C04-2, props/C04.known; the model predicts it: class read-disposed); the untouched-nodes oracle is not applied to these views (fresh-render oracle at every idle point is)",
-        "C04_settles (= C04_settles_for) is proved unconditionally (every history, every schedule, disposal included) for views made of static structure, "
-        "dynamic leaves (text, attribute, class, style), `move || Either` and <For> (through C11_build_wf / C11_storage_is_to / C11_dom_order) nested "
-        "arbitrarily, all over signals; C04_untouched_nodes for the same class, a <For> counting as ONE dynamic part (all its rows governed by the "
-        "list's effect; per-row identity under a re-run is C04_for_keeps_rows); for Show and for parts reading memos the full statement "
-        "C04_settles_full is kept as an OPEN def and covered by correspondence (0 disagreements with the model on every generated history): "
-        "their proof needs state-level convergence lemmas of the reactive core that tolerate disposed effects and programs growing during the run "
-        "(C02_effects_converge_readonly is run-level for a fixed program without lifecycle ops)",
+        "C04_settles_full is a THEOREM: for every well-formed program of the grammar (signals and memos; static structure, dynamic leaves, "
+        "`move || Either`, <Show>, <For>, nested arbitrarily, every dynamic part over signals AND memos) and every history (writes, polls in any order, "
+        "idle, disposal) the DOM at an idle point is the fresh render; it stands on the reactive core's state invariant TopC (C01/C02/C09 proofs) with "
+        "the dropped render effects as dead set. C04_settles / _leaves / _for / _memo / _show are its earlier stages and instances. "
+        "C04_untouched_nodes is proved for the class without Show and over signals only (a <For> counting as ONE dynamic part; per-row identity: "
+        "C04_for_keeps_rows); for Show / memo-reading parts the untouched-nodes statement is covered by correspondence only",
         "C04_show_no_rerender_same_branch is proved for every state satisfying the explicit local pre-state ShowPre (what a write to a signal of the condition produces), "
         "with a kernel-checked reachable instance; it is not (yet) chained through an invariant over all reachable states of programs containing Show",
     ],
